@@ -152,6 +152,9 @@ func (s *Server) apply(log *proto.RaftLog, index uint64, recovered bool) (interf
 			replica   = log.ShrinkISROp.ReplicaToRemove
 			partition = log.ShrinkISROp.Partition
 		)
+		if s.staleISRChange(stream, partition, log.ShrinkISROp.Leader, log.ShrinkISROp.LeaderEpoch) {
+			break
+		}
 		if err := s.applyShrinkISR(stream, replica, partition, index); err != nil {
 			return nil, err
 		}
@@ -170,6 +173,9 @@ func (s *Server) apply(log *proto.RaftLog, index uint64, recovered bool) (interf
 			replica   = log.ExpandISROp.ReplicaToAdd
 			partition = log.ExpandISROp.Partition
 		)
+		if s.staleISRChange(stream, partition, log.ExpandISROp.Leader, log.ExpandISROp.LeaderEpoch) {
+			break
+		}
 		if err := s.applyExpandISR(stream, replica, partition, index); err != nil {
 			return nil, err
 		}
@@ -476,6 +482,25 @@ func (s *Server) applyShrinkISR(stream, replica string, partitionID int32, epoch
 	s.logger.Warnf("fsm: Removed replica %s from ISR for partition [stream=%s, partition=%d]",
 		replica, stream, partitionID)
 	return nil
+}
+
+// staleISRChange reports whether an ISR change names a leader or leader epoch
+// other than the partition's current ones. The controller checks this when it
+// proposes the operation, but a leader change proposed concurrently can be
+// committed in between. Applying the change anyway would let a deposed leader
+// remove its successor from the ISR. Operations without a leader are applied.
+func (s *Server) staleISRChange(stream string, partitionID int32, leader string, leaderEpoch uint64) bool {
+	partition := s.metadata.GetPartition(stream, partitionID)
+	if partition == nil || leader == "" {
+		return false
+	}
+	currLeader, currEpoch := partition.GetLeader()
+	if leader == currLeader && leaderEpoch == currEpoch {
+		return false
+	}
+	s.logger.Warnf("fsm: Ignoring ISR change for partition %s requested by leader %s in epoch %d, "+
+		"current leader is %s in epoch %d", partition, leader, leaderEpoch, currLeader, currEpoch)
+	return true
 }
 
 // applyExpandISR adds the given replica to the partition and updates the
